@@ -40,12 +40,30 @@ def run(mut):
         shutil.rmtree(d, ignore_errors=True)
 
 if __name__ == '__main__':
-    sel = [m for m in M if not sys.argv[1:] or any(m[0].startswith(a) for a in sys.argv[1:])]
+    args = sys.argv[1:]
+    props_filter, evidence = None, None
+    if '--props' in args:
+        i = args.index('--props'); props_filter = args[i + 1].split(','); del args[i:i + 2]
+    if '--evidence' in args:
+        i = args.index('--evidence'); evidence = args[i + 1]; del args[i:i + 2]
+    sel = [m for m in M if not args or any(m[0].startswith(a) for a in args)]
+    if props_filter:
+        # the mutants that must fire for these properties, and every refactor (checked against these properties only)
+        sel = [(n, [p for p in ps if p in props_filter], e) for n, ps, e in sel if not ps or any(p in props_filter for p in ps)]
+        os.environ['SELFTEST_PROPS'] = ','.join(props_filter)
     bad = 0
+    results = []
     with cf.ThreadPoolExecutor(max_workers=int(os.environ.get('SELFTEST_JOBS', '8'))) as ex:
         for name, verdict, info in ex.map(run, sel):
-            print(f'{verdict:14s} {name:36s} {info}')
+            print(f'SELFTEST {verdict:14s} {name:36s} {info}')
+            results.append({'variant': name, 'verdict': verdict, 'rules': info})
             if verdict.startswith('MISSED') or verdict == 'FALSE-ALARM':
                 bad += 1
-    print(f'{len(sel)} variants, {bad} unexpected')
-    sys.exit(1 if bad else 0)
+    print(f'SELFTEST {len(sel)} variants, {bad} unexpected (informational: a checker self-test, not a verdict on /repo)')
+    if evidence and os.path.exists(evidence):
+        ev = json.load(open(evidence))
+        ev['coverage']['selftest'] = {'variants': len(sel), 'fired': sum(r['verdict'] == 'FIRED' for r in results),
+                                      'silent_refactors': sum(r['verdict'] == 'SILENT' for r in results),
+                                      'skipped': sum(r['verdict'] == 'SKIP' for r in results), 'unexpected': bad, 'results': results}
+        json.dump(ev, open(evidence, 'w'), indent=1)
+    sys.exit(0)
